@@ -10,7 +10,9 @@
 From Coq Require Import PrimFloat.
 From Coq Require Import Reals ZArith List Lia Lra Bool Sorted Permutation.
 From PR Require Import Base.Num Base.RNum Base.F64 Base.ZX Model.Grid Model.Bucket Gen.GenC07
-     Proofs.Grid_real Proofs.C07_index Proofs.C07_hist Proofs.C07_minmax Proofs.C07_stats Proofs.C07_empty.
+     Proofs.Grid_real Proofs.C07_index Proofs.C07_hist Proofs.C07_minmax Proofs.C07_stats Proofs.C07_empty
+     Proofs.C07_gen Proofs.C07_history Proofs.C07_compose.
+From PR Require Model.CellIndex Proofs.C18_real.
 Import ListNotations.
 
 (* ------------------------------------------------------------------ cell <-> extent (reals) *)
@@ -231,6 +233,97 @@ Theorem C07_index_chunk_invariant : forall {T} (OP : ops T) (a : area T) (chunks
   bk_idxs_chunked OP a chunks = bk_idxs OP a (concat chunks).
 Proof. intros T OP. exact (bk_idxs_chunk_invariant OP). Qed.
 Print Assumptions C07_index_chunk_invariant.
+
+(* ------------------------------------------------------------------ source tie (definitions regenerated from /repo) *)
+(* _get_indices as it stands in /repo IS the model's index function, for every arithmetic (reals and binary64) *)
+Theorem C07_gen_indices_char : forall {T} (OP : ops T) (a : area T) x y,
+  gen_bucket_indices OP a x y = (fst (bk_xy_idx OP a (x, y)), snd (bk_xy_idx OP a (x, y)), bk_idx OP a (x, y)).
+Proof. intros T OP. exact (gen_bucket_indices_char OP). Qed.
+Print Assumptions C07_gen_indices_char.
+(* the statistics are compositions of element-wise pieces ... *)
+Theorem C07_get_sum_pieces : forall size idxs data fill skipna ebv k,
+  bk_get_sum size idxs data fill skipna ebv k
+  = let s := bk_hist oadd (Some 0) size (combine idxs (map (bk_weight fill) data)) k in
+    bk_ebv_apply ebv (if skipna then s else bk_missing_apply (bk_count size (bk_missing_idxs fill idxs data) k) fill s).
+Proof. exact get_sum_pieces. Qed.
+Print Assumptions C07_get_sum_pieces.
+Theorem C07_get_average_pieces : forall {T} (OP : ops T) size idxs data fill skipna k,
+  bk_get_average OP size idxs data fill skipna k
+  = bk_avg_cell OP (bk_get_sum size idxs (map (bk_avg_datum fill) data) None skipna (Some 0) k)
+                   (bk_hist Z.add 0 size (combine idxs (bk_valid_flags (map (bk_avg_datum fill) data))) k) fill.
+Proof. intros T OP. exact (get_average_pieces OP). Qed.
+Print Assumptions C07_get_average_pieces.
+Theorem C07_get_fraction_pieces : forall {T} (OP : ops T) size idxs data cat fill k,
+  bk_get_fraction OP size idxs data cat fill k
+  = bk_frac_cell OP (bk_hist Z.add 0 size (combine idxs (map (bk_cat_flag cat) data)) k) (bk_count size idxs k) fill.
+Proof. intros T OP. exact (get_fraction_pieces OP). Qed.
+Print Assumptions C07_get_fraction_pieces.
+(* ... and each piece is the statement regenerated from get_sum / _mask_bins_with_nan_if_not_skipna / get_average / get_fractions:
+   without float comparison for every arithmetic, with float comparisons over R on finite values and, NaN included, on binary64
+   for every combination over {NaN, 0, 1, -1, 2, -3, 255, -999, 4095} (counts {0,1,2,3,7}) *)
+Theorem C07_gen_sum_weight_char : forall {T} (OP : ops T) fill d,
+  gen_sum_weight OP (bk_invalid fill d) (dat_embT OP d) = dat_embT OP (bk_weight fill d).
+Proof. intros T OP. exact (gen_sum_weight_char OP). Qed.
+Print Assumptions C07_gen_sum_weight_char.
+Theorem C07_gen_sum_mask_missing_char : forall {T} (OP : ops T) m fill s,
+  gen_sum_mask_missing m (dat_embT OP fill) (dat_embT OP s) = dat_embT OP (bk_missing_apply m fill s).
+Proof. intros T OP. exact (gen_sum_mask_missing_char OP). Qed.
+Print Assumptions C07_gen_sum_mask_missing_char.
+Theorem C07_gen_sum_empty_bucket_char : forall s e,
+  gen_sum_empty_bucket RO (IZR s) (IZR e) = match bk_ebv_apply (Some e) (Some s) with Some v => IZR v | None => 0%R end.
+Proof. exact gen_sum_empty_bucket_char. Qed.
+Print Assumptions C07_gen_sum_empty_bucket_char.
+Theorem C07_gen_average_cell_char : forall s c fill, c <> 0 ->
+  Some (gen_average_cell RO (IZR s) (IZR c) fill) = bk_avg_cell RO (Some s) c None.
+Proof. exact gen_average_cell_char. Qed.
+Print Assumptions C07_gen_average_cell_char.
+Theorem C07_gen_fraction_cell_char : forall s c fill,
+  Some (gen_fraction_cell RO (IZR s) (IZR c) (IZR fill)) = bk_frac_cell RO s c (Some fill).
+Proof. exact gen_fraction_cell_char. Qed.
+Print Assumptions C07_gen_fraction_cell_char.
+Theorem C07_gen_fraction_flag_char : forall d cat, gen_fraction_flag RO (IZR d) (IZR cat) = IZR (bk_cat_flag cat (Some d)).
+Proof. exact gen_fraction_flag_char. Qed.
+Print Assumptions C07_gen_fraction_flag_char.
+Theorem C07_gen_pieces_binary64 : chk_gen_pieces = true.
+Proof. exact gen_pieces_f64. Qed.
+Print Assumptions C07_gen_pieces_binary64.
+Example C07_gen_average_cell_ex : bk_avg_cell RO (Some 3) 2 None = Some (3 / 2)%R /\ (2 <> 0).
+Proof. split; [reflexivity | lia]. Qed.
+
+(* ------------------------------------------------------------------ histories of calls on one object *)
+(* self.idxs is re-chunked in place by get_sum / get_min / get_max and get_count memoises self.counts: for EVERY sequence of
+   calls (with any data chunk layouts) on one object, every call returns what a fresh object holding the same indices returns *)
+Theorem C07_history_independent : forall size (chunks0 : list (list Z)) (calls : list bk_call),
+  bk_run (mk_obj size chunks0 None) calls = map (bk_fresh size (concat chunks0)) calls.
+Proof. exact history_independent. Qed.
+Print Assumptions C07_history_independent.
+Theorem C07_get_sum_chunked_is_get_sum : forall size lens idxs data fill skipna ebv k,
+  bk_get_sum_chunked size lens idxs data fill skipna ebv k = bk_get_sum size idxs data fill skipna ebv k.
+Proof. exact get_sum_chunked_flat. Qed.
+Print Assumptions C07_get_sum_chunked_is_get_sum.
+Example C07_history_ex :
+  bk_run (mk_obj 3 [[0; 2]; [2; -4; 0]] None)
+         [CallSum [1%nat; 4%nat] [Some 1; Some 2; None; Some 9; Some 5] None true (Some 0); CallCount;
+          CallMax [5%nat] [Some 1; Some 2; Some 3; Some 9; Some 5]; CallCount]
+  = [ResD [Some 6; Some 0; Some 2]; ResZ [2; 0; 2]; ResD [Some 5; None; Some 3]; ResZ [2; 0; 2]].
+Proof. vm_compute. reflexivity. Qed.
+
+(* ------------------------------------------------------------------ composition with C18 *)
+(* the cell a point is counted in is the cell grid.get_linesample and GridFilter assign to it (off the border lines; C18) *)
+Theorem C07_counted_cell_is_common_cell : forall (a : area R) x y,
+  wf_area a -> C18_real.fits_int32 a -> C18_real.off_border a x y ->
+  bk_cell_of RO a (x, y) = CellIndex.grid_cell RO a x y /\ bk_cell_of RO a (x, y) = CellIndex.gf_cell RO a x y.
+Proof. exact counted_cell_is_common_cell. Qed.
+Print Assumptions C07_counted_cell_is_common_cell.
+
+(* ------------------------------------------------------------------ round_to_resolution (regenerated from /repo) *)
+Theorem C07_round_to_resolution_nearest : forall arr res, res <> 0%R ->
+  exists k : Z, gen_round_to_resolution RO arr res = (res * IZR k)%R
+                /\ (Rabs (gen_round_to_resolution RO arr res - arr) <= Rabs res / 2)%R.
+Proof. exact round_to_resolution_nearest. Qed.
+Print Assumptions C07_round_to_resolution_nearest.
+Example C07_round_to_resolution_ex : gen_round_to_resolution F64 7.4%float 0.5%float = 7.5%float.
+Proof. vm_compute. reflexivity. Qed.
 
 (* ------------------------------------------------------------------ non-vacuity on binary64 *)
 Definition exF : area float := mk_area 0%float 0%float 8%float 4%float 4 2.
